@@ -301,4 +301,169 @@ theorem c19_length_exact_spec (k : Nat) : ∀ (on : Bool) (L : Nat), 0 < L →
 example : (Len.clocks 2 ⟨true, true, lengthClocksFor 64 0x3d⟩).on = true ∧
     (Len.clocks 3 ⟨true, true, lengthClocksFor 64 0x3d⟩).on = false := by decide
 
+
+/-! ### exact length on the code model -/
+
+def sqLenTicks : Nat → Square → Square
+  | 0, s => s
+  | k + 1, s => sqLenTicks k s.tickLength
+def wvLenTicks : Nat → Wave → Wave
+  | 0, w => w
+  | k + 1, w => wvLenTicks k w.tickLength
+def nsLenTicks : Nat → Noise → Noise
+  | 0, n => n
+  | k + 1, n => nsLenTicks k n.tickLength
+
+private theorem sq_lenTicks (k : Nat) : ∀ s : Square, s.length ≤ 64 → sqLen (sqLenTicks k s) = Len.clocks k (sqLen s) := by
+  induction k with
+  | zero => intro s _; rfl
+  | succ j ih =>
+    intro s h
+    obtain ⟨e, hb⟩ := c19_refines_clock.1 s h
+    show sqLen (sqLenTicks j s.tickLength) = Len.clocks j (sqLen s).clock
+    rw [ih _ hb, e]
+private theorem wv_lenTicks (k : Nat) : ∀ w : Wave, w.length ≤ 256 → wvLen (wvLenTicks k w) = Len.clocks k (wvLen w) := by
+  induction k with
+  | zero => intro s _; rfl
+  | succ j ih =>
+    intro s h
+    obtain ⟨e, hb⟩ := c19_refines_clock.2.1 s h
+    show wvLen (wvLenTicks j s.tickLength) = Len.clocks j (wvLen s).clock
+    rw [ih _ hb, e]
+private theorem ns_lenTicks (k : Nat) : ∀ n : Noise, n.length ≤ 64 → nsLen (nsLenTicks k n) = Len.clocks k (nsLen n) := by
+  induction k with
+  | zero => intro s _; rfl
+  | succ j ih =>
+    intro s h
+    obtain ⟨e, hb⟩ := c19_refines_clock.2.2 s h
+    show nsLen (nsLenTicks j s.tickLength) = Len.clocks j (nsLen s).clock
+    rw [ih _ hb, e]
+
+/-- a trigger with length enable on the documented machine, counter loaded with `cnt`: the counter
+    afterwards, plus the extra clock this write performed, is `cnt` – except that a counter expired
+    by the extra clock is reloaded (M − 1 more clocks: the write is in the first half) -/
+private theorem spec_trigger (M : Nat) (hM : 1 < M) (on0 en fh ok : Bool) (cnt : Nat) (h1 : 0 < cnt) (h2 : cnt ≤ M) :
+    ∃ c, Len.writeNRx4 M ⟨on0, en, cnt⟩ true true fh ok = ⟨ok, true, c⟩ ∧ 0 < c ∧ c ≤ M ∧
+      (c + (if (!en && fh) = true then 1 else 0) = cnt ∨ ((!en && fh) = true ∧ cnt = 1 ∧ c = M - 1)) := by
+  cases en <;> cases fh <;> simp [Len.writeNRx4, h1]
+  all_goals (repeat' split)
+  all_goals (first | omega | (refine ⟨by omega, by omega, ?_⟩; omega) | skip)
+
+/-- **C19 (exact length).**  A channel whose length register was written with data t and which is then
+    triggered with length enable (NRx4 bits 7 and 6) stays on – if the trigger switched it on at all:
+    DAC enabled, no sweep overflow – for exactly c further length clocks, where c plus the extra
+    length clock performed by the NRx4 write itself (length newly enabled in the first half of a
+    frame-sequencer period) is 64 − t (256 − t for channel 3); if that extra clock already expired
+    the counter (t = 63 resp. 255) the trigger reloads it and c = 63 (255).  Excluded: the
+    documented-open corner `Len.fullRetrigger` (length already enabled, t = 0, first half). -/
+theorem c19_length_exact :
+    (∀ (s : Square) (on : Bool) (t fs v : Nat), trigOf v = true → leOf v = true →
+      ¬ (s.lengthEnable = true ∧ fs % 2 = 1 ∧ t % 64 = 0) →
+      ∃ c, 0 < c ∧
+        (c + (if (!s.lengthEnable && decide (fs % 2 = 1)) = true then 1 else 0) = lengthClocksFor 64 t ∨
+          ((!s.lengthEnable && decide (fs % 2 = 1)) = true ∧ t % 64 = 63 ∧ c = 63)) ∧
+        ∀ k, sqLen (sqLenTicks k ((sqWriteNRx1 on s t).writeNRx4 fs v)) =
+          ⟨sqTrigOk ((sqWriteNRx1 on s t).setFreqHi v) && decide (k < c), true, c - k⟩) ∧
+    (∀ (w : Wave) (t fs v : Nat), t < 256 → trigOf v = true → leOf v = true →
+      ¬ (w.lengthEnable = true ∧ fs % 2 = 1 ∧ t = 0) →
+      ∃ c, 0 < c ∧
+        (c + (if (!w.lengthEnable && decide (fs % 2 = 1)) = true then 1 else 0) = lengthClocksFor 256 t ∨
+          ((!w.lengthEnable && decide (fs % 2 = 1)) = true ∧ t = 255 ∧ c = 255)) ∧
+        ∀ k, wvLen (wvLenTicks k ((w.writeNR31 t).writeNR34 fs v)) = ⟨w.dacEnabled && decide (k < c), true, c - k⟩) ∧
+    (∀ (n : Noise) (t fs v : Nat), trigOf v = true → leOf v = true →
+      ¬ (n.lengthEnable = true ∧ fs % 2 = 1 ∧ t % 64 = 0) →
+      ∃ c, 0 < c ∧
+        (c + (if (!n.lengthEnable && decide (fs % 2 = 1)) = true then 1 else 0) = lengthClocksFor 64 t ∨
+          ((!n.lengthEnable && decide (fs % 2 = 1)) = true ∧ t % 64 = 63 ∧ c = 63)) ∧
+        ∀ k, nsLen (nsLenTicks k ((n.writeNR41 t).writeNR44 fs v)) = ⟨n.dacEnabled && decide (k < c), true, c - k⟩) := by
+  refine ⟨?_, ?_, ?_⟩
+  · intro s on t fs v htr hle hcor
+    have hlen : (sqWriteNRx1 on s t).length = 64 - t % 64 := rfl
+    have hen : (sqWriteNRx1 on s t).lengthEnable = s.lengthEnable := rfl
+    have hb : (sqWriteNRx1 on s t).length ≤ 64 := by rw [hlen]; omega
+    have hnc : ¬ Len.fullRetrigger 64 (sqLen (sqWriteNRx1 on s t)) (leOf v) (trigOf v) (decide (fs % 2 = 1)) := by
+      intro ⟨_, _, a3, a4, a5⟩
+      apply hcor
+      refine ⟨a4, by simpa using a3, ?_⟩
+      have : 64 - t % 64 = 64 := a5
+      omega
+    have href := c19_refines_nrx4.1 _ fs v hb hnc
+    rw [htr, hle] at href
+    obtain ⟨c, hc, c0, cM, hcount⟩ := spec_trigger 64 (by decide) (sqWriteNRx1 on s t).enabled s.lengthEnable
+      (decide (fs % 2 = 1)) (sqTrigOk ((sqWriteNRx1 on s t).setFreqHi v)) (64 - t % 64) (by omega) (by omega)
+    have hs2 : sqLen ((sqWriteNRx1 on s t).writeNRx4 fs v) = ⟨sqTrigOk ((sqWriteNRx1 on s t).setFreqHi v), true, c⟩ := by
+      rw [href]; exact hc
+    refine ⟨c, c0, ?_, fun k => ?_⟩
+    · unfold lengthClocksFor
+      rcases hcount with h | ⟨h1, h2, h3⟩
+      · left; exact h
+      · right; exact ⟨h1, by omega, h3⟩
+    · have hb2 : ((sqWriteNRx1 on s t).writeNRx4 fs v).length ≤ 64 := by
+        have := congrArg Len.count hs2; simp only [sqLen] at this; omega
+      rw [sq_lenTicks k _ hb2, hs2, c19_length_exact_spec k _ c c0]
+  · intro w t fs v ht htr hle hcor
+    have hlen : (w.writeNR31 t).length = 256 - t := by show sub16 256 t = _; unfold sub16; omega
+    have hen : (w.writeNR31 t).lengthEnable = w.lengthEnable := rfl
+    have hb : (w.writeNR31 t).length ≤ 256 := by rw [hlen]; omega
+    have hsl : wvLen (w.writeNR31 t) = ⟨w.enabled, w.lengthEnable, 256 - t⟩ := by
+      show (⟨_, _, (w.writeNR31 t).length⟩ : Len) = _; rw [hlen]; rfl
+    have hnc : ¬ Len.fullRetrigger 256 (wvLen (w.writeNR31 t)) (leOf v) (trigOf v) (decide (fs % 2 = 1)) := by
+      rw [hsl]
+      intro ⟨_, _, a3, a4, a5⟩
+      apply hcor
+      refine ⟨a4, by simpa using a3, ?_⟩
+      have : 256 - t = 256 := a5
+      omega
+    have href := c19_refines_nrx4.2.1 _ fs v hb hnc
+    rw [htr, hle, hsl] at href
+    obtain ⟨c, hc, c0, cM, hcount⟩ := spec_trigger 256 (by decide) w.enabled w.lengthEnable
+      (decide (fs % 2 = 1)) (w.writeNR31 t).dacEnabled (256 - t) (by omega) (by omega)
+    have hs2 : wvLen ((w.writeNR31 t).writeNR34 fs v) = ⟨w.dacEnabled, true, c⟩ := by
+      rw [href]; exact hc
+    refine ⟨c, c0, ?_, fun k => ?_⟩
+    · unfold lengthClocksFor
+      rcases hcount with h | ⟨h1, h2, h3⟩
+      · left; rw [Nat.mod_eq_of_lt ht]; exact h
+      · right; exact ⟨h1, by omega, h3⟩
+    · have hb2 : ((w.writeNR31 t).writeNR34 fs v).length ≤ 256 := by
+        have := congrArg Len.count hs2; simp only [wvLen] at this; omega
+      rw [wv_lenTicks k _ hb2, hs2, c19_length_exact_spec k _ c c0]
+  · intro n t fs v htr hle hcor
+    have hlen : (n.writeNR41 t).length = 64 - t % 64 := rfl
+    have hb : (n.writeNR41 t).length ≤ 64 := by rw [hlen]; omega
+    have hnc : ¬ Len.fullRetrigger 64 (nsLen (n.writeNR41 t)) (leOf v) (trigOf v) (decide (fs % 2 = 1)) := by
+      intro ⟨_, _, a3, a4, a5⟩
+      apply hcor
+      refine ⟨a4, by simpa using a3, ?_⟩
+      have : 64 - t % 64 = 64 := a5
+      omega
+    have href := c19_refines_nrx4.2.2 _ fs v hb hnc
+    rw [htr, hle] at href
+    obtain ⟨c, hc, c0, cM, hcount⟩ := spec_trigger 64 (by decide) (n.writeNR41 t).enabled n.lengthEnable
+      (decide (fs % 2 = 1)) (n.writeNR41 t).dacEnabled (64 - t % 64) (by omega) (by omega)
+    have hs2 : nsLen ((n.writeNR41 t).writeNR44 fs v) = ⟨n.dacEnabled, true, c⟩ := by
+      rw [href]; exact hc
+    refine ⟨c, c0, ?_, fun k => ?_⟩
+    · unfold lengthClocksFor
+      rcases hcount with h | ⟨h1, h2, h3⟩
+      · left; exact h
+      · right; exact ⟨h1, by omega, h3⟩
+    · have hb2 : ((n.writeNR41 t).writeNR44 fs v).length ≤ 64 := by
+        have := congrArg Len.count hs2; simp only [nsLen] at this; omega
+      rw [ns_lenTicks k _ hb2, hs2, c19_length_exact_spec k _ c c0]
+
+/-- non-vacuity: channel 2, NR21 = 0x3d (t = 61: 3 length clocks), DAC on, length not yet enabled,
+    trigger + length enable in the SECOND half (no extra clock): on after 2 length clocks, off after 3;
+    the same in the FIRST half: the write itself is the first of the 3 clocks, off after 2 more -/
+example :
+    (sqLenTicks 2 ((sqWriteNRx1 true { dacEnabled := true } 0x3d).writeNRx4 0 0xC0)).enabled = true ∧
+    (sqLenTicks 3 ((sqWriteNRx1 true { dacEnabled := true } 0x3d).writeNRx4 0 0xC0)).enabled = false ∧
+    (sqLenTicks 1 ((sqWriteNRx1 true { dacEnabled := true } 0x3d).writeNRx4 1 0xC0)).enabled = true ∧
+    (sqLenTicks 2 ((sqWriteNRx1 true { dacEnabled := true } 0x3d).writeNRx4 1 0xC0)).enabled = false := by decide
+
+/-- the documented-open corner, as the code behaves: length already enabled, counter full (t = 0),
+    trigger in the first half: the code clocks the counter (63 left), the documentation reads as 64 -/
+theorem c19_full_retrigger_code :
+    ((sqWriteNRx1 true { dacEnabled := true, lengthEnable := true } 0x00).writeNRx4 1 0xC0).length = 63 := by decide
+
 end Tetro.C19
